@@ -295,6 +295,18 @@ def solve_one(ob, timeout_s=60, second=False, seed=0):
                 res['model_apps'] = {brief(n, 200): appvals.get(n.id) for n in _nodes(ob) if n.op == 'app'}
                 res['detail'] = why
                 res['status'] = 'refuted' if ok else 'undecided'
+                if not ok:
+                    # degenerate model (goal only violated by an abstraction artefact or by rounding): ask for a robust violation
+                    sg = strict_neg(ob.goal)
+                    if sg is not None:
+                        s3 = z3.Solver(); s3.set('timeout', int(timeout_s * 300)); s3.add(*cons); s3.add(zz.b(sg))
+                        if s3.check() == z3.sat:
+                            env, appvals = model_env(zz, s3.model())
+                            ok, why = validate(ob, zz, env, appvals)
+                            if ok:
+                                res['model'] = {k: v for k, v in env.items() if isinstance(k, str)}
+                                res['model_apps'] = {brief(n, 200): appvals.get(n.id) for n in _nodes(ob) if n.op == 'app'}
+                                res['detail'] = why + ' (robust model)'; res['status'] = 'refuted'
             else:
                 res['detail'] = 'solver: unknown/timeout'
         else:   # cover / must-fail: sat expected
@@ -316,6 +328,22 @@ def solve_one(ob, timeout_s=60, second=False, seed=0):
     res['time'] = round(time.time() - t0, 3)
     res['sublog'] = log
     return res
+
+
+def strict_neg(g):
+    """negation of the goal with a margin (used to steer the solver away from degenerate counter-models)"""
+    m = Fraction(1, 1000)
+    if g.op == 'cmp':
+        k, a, b = g.a
+        if k == '==': return bor(cmp('>', a - b, m), cmp('>', b - a, m))
+        if k in ('<=', '<'): return cmp('>', a - b, m)
+        if k in ('>=', '>'): return cmp('>', b - a, m)
+        return None
+    if g.op == 'and':
+        parts = [strict_neg(x) for x in g.a]
+        parts = [p for p in parts if p is not None]
+        return bor(*parts) if parts else None
+    return None
 
 
 def _strkeys(env): return {k: v for k, v in env.items() if isinstance(k, str)}
